@@ -162,6 +162,17 @@ func (e *Exec) reflectMethod(rt ReflT, name string) *ModelFn {
 			return e.tt.BVConst(uint64(types.NewMethodSet(t).Len()), 64)
 		case "Comparable":
 			return e.tt.Bool(types.Comparable(t))
+		case "AssignableTo", "ConvertibleTo":
+			if len(args) == 1 {
+				if iv, ok := args[0].(IfaceV); ok {
+					if ot, ok := iv.v.(ReflT); ok {
+						if name == "AssignableTo" {
+							return e.tt.Bool(types.AssignableTo(t, ot.t))
+						}
+						return e.tt.Bool(types.ConvertibleTo(t, ot.t))
+					}
+				}
+			}
 		}
 		e.unsupported("reflect.Type." + name)
 		return nil
